@@ -73,7 +73,8 @@ func TestC11Isolation(t *testing.T) {
 		}
 		var plans []peerPlan
 		for i := 0; i < npeers; i++ {
-			pl := peerPlan{host: 10 + i, port: 4000 + i, conv: rapid.Uint32Range(1, 1<<31).Draw(rt, "conv") + uint32(i)}
+			// any 32-bit value is a legal conversation id, 0 and 0xffffffff included
+			pl := peerPlan{host: 10 + i, port: 4000 + i, conv: rapid.OneOf(rapid.SampledFrom([]uint32{0, 0, 1, 0xffffffff, 0x80000000}), rapid.Uint32()).Draw(rt, "conv")}
 			if i > 0 && rapid.IntRange(0, 3).Draw(rt, "sameIP") == 0 {
 				pl.host = plans[i-1].host // same IP, different port
 			}
@@ -112,7 +113,11 @@ func TestC11Isolation(t *testing.T) {
 			var toClient = map[string][][]byte{}
 			connect := func(p *c11Peer) {
 				p.inc++
-				p.conv += uint32(p.inc-1) * 7919
+				if p.inc == 2 && p.conv != 0 && p.conv%3 == 0 {
+					p.conv = 0 // reconnect with conversation id 0
+				} else {
+					p.conv += uint32(p.inc-1) * 7919
+				}
 				p.sid = c11Sid(p.addr.String(), p.conv)
 				p.cli, _ = kcp.NewConn3(p.conv, laddr, blk(), fec[0], fec[1], p.conn)
 				p.cli.SetNoDelay(1, 10, 2, 1)
